@@ -675,6 +675,8 @@ package server
 //@   ensures [C07:acknowledged-delete-is-recorded] result == nil ==> has(dsm.store.deletedDatasets, idG) && has($persisted, "deleteddatasets")
 //@   ensures [C07:earlier-deletions-stay-recorded] forall k uint32 :: old(has(dsm.store.deletedDatasets, k)) ==> has(dsm.store.deletedDatasets, k)
 //@   ensures [C07:record-removed-only-after-the-deleted-set-was-persisted] $recordsDeleted > old($recordsDeleted) ==> has($persisted, "deleteddatasets") && has(dsm.store.deletedDatasets, idG)
+//@   at call IsDataset#1 before
+//@     assert [C05:existence-checked-under-the-manager-lock] has($held, addrOf(dsm.lock))
 //@   at call GetDataset#1
 //@     ghost idG := $result.InternalID
 //@   at call StoreObject#1 before
@@ -686,9 +688,9 @@ package server
 //@     ghost unregG := unregG + 1
 //@   at call deleteValue#1 before
 //@     assert [C07:deleted-set-persisted-before-the-record-is-removed] has($persisted, "deleteddatasets") && has(dsm.store.deletedDatasets, existingDataset.InternalID)
-//@     assert [C07:dataset-leaves-both-registries-before-its-record-is-removed] unregG == 2
+//@     assert [C07,C19:dataset-leaves-both-registries-before-its-record-is-removed] unregG == 2
 //@   at call storeEntity#1 before
-//@     assert [C07:core-entity-written-after-the-dataset-left-the-registries] unregG == 2 && $recordsDeleted == old($recordsDeleted) + 1
+//@     assert [C07,C19:core-entity-written-after-the-dataset-left-the-registries] unregG == 2 && $recordsDeleted == old($recordsDeleted) + 1
 //@   loop 1
 //@     invariant newDeletedDatasets != 0 && newDeletedDatasets != dsm.store.deletedDatasets
 //@     invariant forall k uint32 :: visited(k) ==> has(newDeletedDatasets, k)
@@ -779,13 +781,14 @@ package server
 //@     assert [C07:rename-writes-the-new-record-in-the-same-transaction] key == newKey && val == newValue && $arg0 == txn
 
 //@ unit (*DsManager).CreateDataset
-//@   prop C07 C04 C19 C14
+//@   prop C07 C04 C19 C14 C05
 //@   ghost idPersistedG bool = false
 //@   ghost freshG int = 0
 //@   requires dsm != nil && dsm.store != nil && !has($held, addrOf(dsm.lock)) && dsm.store.nextDatasetID < 4294967295
 //@   requires [callers-hold-no-lock] forall l int :: has($held, l) ==> lockLevel(l) < 1
 //@   ensures [C07:next-dataset-id-never-goes-back] dsm.store.nextDatasetID >= old(dsm.store.nextDatasetID)
 //@   at call IsDataset#1 before
+//@     assert [C05:existence-checked-under-the-manager-lock] has($held, addrOf(dsm.lock))
 //@     ghost freshG := dsm.store.nextDatasetID
 //@   at call storeValue#1
 //@     ghost idPersistedG := $result == nil
@@ -845,6 +848,10 @@ package server
 //@   ghost movedG bool = false
 //@   requires dsm != nil && dsm.store != nil && config != nil && !has($held, addrOf(dsm.lock))
 //@   requires [callers-hold-no-lock] forall l int :: has($held, l) ==> lockLevel(l) < 1
+//@   at call IsDataset#1 before
+//@     assert [C05:existence-checked-under-the-manager-lock] has($held, addrOf(dsm.lock))
+//@   at call IsDataset#2 before
+//@     assert [C05:existence-checked-under-the-manager-lock] has($held, addrOf(dsm.lock))
 //@   at call Marshal#1 before
 //@     assert [C14:renamed-record-carries-the-new-name] cast(v, "*server.Dataset") == ds && ds.ID == newName && newName == config.ID
 //@   at call moveValue#1 before
